@@ -1,9 +1,148 @@
-(* C19 — Typed IOS interface/route models report what the text says; factory transparent. *)
+(* C19 — Typed IOS interface/route models report what the text says; factory transparent.
+   PARTIAL claim.  The statements are about the token-level accessor model (Model/IntfCfg.v): the
+   regular expressions of models_cisco.py are written down as item sequences with a deterministic
+   matcher; Python's `re` is not modelled and the regexes are not translated from the source.  The
+   model is tied to the real IOSIntfLine / IOSRouteLine accessors by the correspondence streams of
+   harness/props/c19.py; factory transparency is tested on the real code only.
+
+   Vocabulary:  mk_stanza h attrs   an interface stanza: header h, then the attribute lines `attrs`
+                                    IN ANY ORDER (the theorems quantify over all lists, hence over all
+                                    permutations and interleavings), `A_other l` being an unrelated line
+                render a            the text of attribute line a, indented by S n blanks
+                valid a             side conditions (non-empty words, well-formed quads, and for
+                                    A_other: none of the modelled patterns matches the line)
+                unrelated h         the header is not mistaken for an attribute line *)
 From Coq Require Import NArith ZArith List Bool.
 Require Import CCP.Lib.PyStr CCP.Model.IntfCfg CCP.Proofs.C19Proofs.
 Import ListNotations.
 
+(* --- first match in family order: value of the only matching line, default when none matches *)
+Theorem C19_first_match_unique : forall (A : Type) (f : str -> option A) (ls : list str) (v : A),
+  (exists l, In l ls /\ f l <> None) -> (forall l v', In l ls -> f l = Some v' -> v' = v) -> first_some f ls = Some v.
+Proof. exact @first_some_unique. Qed.
+Print Assumptions C19_first_match_unique.
 Theorem C19_first_match_absent : forall (A : Type) (f : str -> option A) (ls : list str),
   (forall l, In l ls -> f l = None) -> first_some f ls = None.
 Proof. exact @first_some_none. Qed.
 Print Assumptions C19_first_match_absent.
+
+(* --- the `interface <name>` header itself is never mistaken for an attribute line *)
+Theorem C19_header_unrelated : forall name : str, unrelated (s_interface ++ spc :: name).
+Proof. exact header_unrelated. Qed.
+Print Assumptions C19_header_unrelated.
+
+(* --- decimal text of a number reads back as that number (int(str(v)) == v) *)
+Theorem C19_decimal_roundtrip : forall v : N, py_int (render_dec v) = Some (Z.of_N v).
+Proof. exact py_int_render. Qed.
+Print Assumptions C19_decimal_roundtrip.
+
+(* --- manual_mtu *)
+Theorem C19_mtu_roundtrip : forall h attrs, unrelated h -> Forall valid attrs -> forall v,
+  (exists n, In (A_mtu n v) attrs) -> (forall n' v', In (A_mtu n' v') attrs -> v' = v) ->
+  acc_mtu (mk_stanza h attrs) = Some (Z.of_N v).
+Proof. exact mtu_present. Qed.
+Print Assumptions C19_mtu_roundtrip.
+Theorem C19_mtu_default : forall h attrs, unrelated h -> Forall valid attrs ->
+  (forall n v, ~ In (A_mtu n v) attrs) -> acc_mtu (mk_stanza h attrs) = Some (-1)%Z.
+Proof. exact mtu_absent. Qed.
+Print Assumptions C19_mtu_default.
+
+(* --- portchannel_number *)
+Theorem C19_portchannel_roundtrip : forall h attrs, unrelated h -> Forall valid attrs -> forall g,
+  (exists n m, In (A_channel n g m) attrs) -> (forall n' g' m', In (A_channel n' g' m') attrs -> g' = g) ->
+  acc_portchannel (mk_stanza h attrs) = Some (Z.of_N g).
+Proof. exact channel_present. Qed.
+Print Assumptions C19_portchannel_roundtrip.
+Theorem C19_portchannel_default : forall h attrs, unrelated h -> Forall valid attrs ->
+  (forall n g m, ~ In (A_channel n g m) attrs) -> acc_portchannel (mk_stanza h attrs) = Some (-1)%Z.
+Proof. exact channel_absent. Qed.
+Print Assumptions C19_portchannel_default.
+
+(* --- description *)
+Theorem C19_description_roundtrip : forall h attrs, unrelated h -> Forall valid attrs -> forall t,
+  (exists n, In (A_description n t) attrs) -> (forall n' t', In (A_description n' t') attrs -> t' = t) ->
+  acc_description (mk_stanza h attrs) = t.
+Proof. exact description_present. Qed.
+Print Assumptions C19_description_roundtrip.
+Theorem C19_description_default : forall h attrs, unrelated h -> Forall valid attrs ->
+  (forall n t, ~ In (A_description n t) attrs) -> acc_description (mk_stanza h attrs) = [].
+Proof. exact description_absent. Qed.
+Print Assumptions C19_description_default.
+
+(* --- vrf (with or without the leading `ip`) *)
+Theorem C19_vrf_roundtrip : forall h attrs, unrelated h -> Forall valid attrs -> forall nm,
+  (exists n b, In (A_vrf n b nm) attrs) -> (forall n' b' nm', In (A_vrf n' b' nm') attrs -> nm' = nm) ->
+  acc_vrf (mk_stanza h attrs) = nm.
+Proof. exact vrf_present. Qed.
+Print Assumptions C19_vrf_roundtrip.
+Theorem C19_vrf_default : forall h attrs, unrelated h -> Forall valid attrs ->
+  (forall n b nm, ~ In (A_vrf n b nm) attrs) -> acc_vrf (mk_stanza h attrs) = [].
+Proof. exact vrf_absent. Qed.
+Print Assumptions C19_vrf_default.
+
+(* --- is_shutdown *)
+Theorem C19_shutdown_iff : forall h attrs, unrelated h -> Forall valid attrs ->
+  (acc_shutdown (mk_stanza h attrs) = true <-> exists n, In (A_shutdown n) attrs).
+Proof. exact shutdown_iff. Qed.
+Print Assumptions C19_shutdown_iff.
+
+(* --- ipv4_addr / ipv4_netmask: the primary address, never a secondary one, wherever it stands *)
+Theorem C19_ipv4_roundtrip : forall h attrs, unrelated h -> Forall valid attrs -> forall q m,
+  (exists n, In (A_address n q m) attrs) ->
+  (forall n' q' m', In (A_address n' q' m') attrs -> q' = q /\ m' = m) ->
+  acc_ipv4_addr (mk_stanza h attrs) = render_quad q /\ acc_ipv4_netmask (mk_stanza h attrs) = render_quad m.
+Proof. exact address_present. Qed.
+Print Assumptions C19_ipv4_roundtrip.
+Theorem C19_ipv4_default : forall h attrs, unrelated h -> Forall valid attrs ->
+  (forall n q m, ~ In (A_address n q m) attrs) ->
+  acc_ipv4_addr (mk_stanza h attrs) = [] /\ acc_ipv4_netmask (mk_stanza h attrs) = [].
+Proof. exact address_absent. Qed.
+Print Assumptions C19_ipv4_default.
+
+(* --- mask length of each of the 33 contiguous netmasks (finite domain, fully enumerated) *)
+Theorem C19_masklength_table : forall n : N, (n <= 32)%N -> masklen_str (mask_text n) = Some (Z.of_N n).
+Proof. exact masklen_all. Qed.
+Print Assumptions C19_masklength_table.
+
+(* --- switchport word tests over the direct children *)
+Theorem C19_switchport_child : forall st l rest, In l (kids st) -> words l = s_switchport :: rest -> acc_is_switchport st = true.
+Proof. exact switchport_child. Qed.
+Print Assumptions C19_switchport_child.
+Theorem C19_access_vlan_roundtrip : forall st n v, In (access_line n v) (kids st) ->
+  (forall l, In l (kids st) -> is_access_line l = true -> l = access_line n v) -> acc_access_vlan st = Some (Z.of_N v).
+Proof. exact access_vlan_present. Qed.
+Print Assumptions C19_access_vlan_roundtrip.
+Theorem C19_access_vlan_default : forall st, (forall l, In l (kids st) -> is_access_line l = false) ->
+  acc_access_vlan st = Some (if acc_is_switchport st then 1 else -1)%Z.
+Proof. exact access_vlan_absent. Qed.
+Print Assumptions C19_access_vlan_default.
+Theorem C19_native_vlan_roundtrip : forall st n v, In (native_line n v) (kids st) ->
+  (forall l, In l (kids st) -> is_native_line l = true -> l = native_line n v) -> acc_native_vlan st = Some (Z.of_N v).
+Proof. exact native_vlan_present. Qed.
+Print Assumptions C19_native_vlan_roundtrip.
+Theorem C19_native_vlan_default : forall st, (forall l, In l (kids st) -> is_native_line l = false) ->
+  acc_native_vlan st = Some (if acc_is_switchport st then 1 else -1)%Z.
+Proof. exact native_vlan_absent. Qed.
+Print Assumptions C19_native_vlan_default.
+
+(* --- allowed-VLAN arithmetic on bit sets: a-b denotes {a..b}; add is union; remove/except is difference *)
+Theorem C19_vlan_range_spec : forall a b n : N, N.testbit (range_bits a b) n = ((a <=? n) && (n <=? b))%N.
+Proof. exact range_bits_spec. Qed.
+Print Assumptions C19_vlan_range_spec.
+Theorem C19_vlan_add_spec : forall s t n : N, N.testbit (N.lor s t) n = N.testbit s n || N.testbit t n.
+Proof. exact vlan_add_spec. Qed.
+Print Assumptions C19_vlan_add_spec.
+Theorem C19_vlan_remove_spec : forall s t n : N, N.testbit (N.ldiff s t) n = N.testbit s n && negb (N.testbit t n).
+Proof. exact vlan_remove_spec. Qed.
+Print Assumptions C19_vlan_remove_spec.
+
+(* --- static routes: a line rendered from a description parses back to the description
+       (at least one of interface / next hop present, as IOS requires) *)
+Theorem C19_route_roundtrip : forall d : rdesc, rdesc_ok d ->
+  exists r, parse_route (render_route d) = Some r /\
+    r_vrf r = ostr_ (d_vrf d) /\ r_prefix r = render_quad (d_prefix d) /\ r_mask r = render_quad (d_mask d) /\
+    r_nh_intf r = ostr_ (d_intf d) /\ r_nh_addr r = ostr_ (oq (d_nh d)) /\
+    r_ad r = Some (match d_ad d with Some a => Z.of_N a | None => 1%Z end) /\
+    r_name r = ostr_ (d_name d) /\ r_track r = ostr_ (od (d_track d)) /\ r_tag r = ostr_ (od (d_tag d)).
+Proof. exact route_roundtrip. Qed.
+Print Assumptions C19_route_roundtrip.
